@@ -587,6 +587,50 @@ def setterAgrees (P : Pair) : Bool :=
   | some L => L.all fun f => agreesField P f || notStored P f
   | none => true
 
+/-! ## Repeated records (frozen)
+
+`(PGN, bit offset of the 8-bit count field, bytes in front of the records, bytes per record)`: the published message
+has exactly `count` records behind the fixed part (a count of 0xff, "not available", has none). PGN 129029: the
+reference stations (type, id, age of corrections = 4 bytes each) behind byte 42. -/
+def repeats : List (Nat × Nat × Nat × Nat) := [(129029, 336, 43, 4)]
+
+def Cond.onlyField (o : Nat) : Cond → Bool
+  | .tt => true
+  | .eq f _ => f == o | .ne f _ => f == o | .lt f _ => f == o | .le f _ => f == o | .gt f _ => f == o | .ge f _ => f == o
+  | .and a b => Cond.onlyField o a && Cond.onlyField o b
+  | .or a b => Cond.onlyField o a && Cond.onlyField o b
+  | .not a => Cond.onlyField o a
+
+/-- the 8 bits at `off` as a constant, if they are one -/
+def countConst (P : Pair) (off : Nat) : Option Nat :=
+  (List.range 8).foldr (fun i acc => match acc, srcAt P.setter (off + i) with
+    | some v, some .zero => some (2 * v)
+    | some v, some .one => some (2 * v + 1)
+    | _, _ => none) (some 0)
+
+/-- the parameter whose low 8 bits are the 8 bits at `off`, if they are one parameter -/
+def countParam (P : Pair) (off : Nat) : Option Nat :=
+  match srcAt P.setter off with
+  | some (.param o 0) => if (List.range 8).all (fun i => srcAt P.setter (off + i) == some (.param o i)) then some o else none
+  | _ => none
+
+def recordsFor (count : Nat) : Nat := if count = 255 then 0 else count
+
+/-- on this setter path the payload length is the fixed part plus one record per counted entry, for EVERY value of
+the count the path can be taken with (the path condition may only speak about the count parameter) -/
+def recordCountOK (P : Pair) (off base rec : Nat) : Bool :=
+  match countConst P off with
+  | some c => setterLen P.setter == 8 * (base + rec * recordsFor c)
+  | none =>
+    match countParam P off with
+    | some o => Cond.onlyField o P.setCond &&
+        (List.range 256).all fun v => !(P.setCond.eval fun f => if f = o then v else 0) ||
+          setterLen P.setter == 8 * (base + rec * recordsFor v)
+    | none => false
+
+def repeatsOK (P : Pair) : Bool :=
+  repeats.all fun r => P.pgn != r.1 || P.setterPrefixOnly || !P.setterOK || recordCountOK P r.2.1 r.2.2.1 r.2.2.2
+
 /-- every published (enumerator, code) is declared with exactly that code in the headers read on this run -/
 def enumAgrees (spec gen : List (String × Nat)) : Bool := spec.all fun nc => gen.contains nc
 
